@@ -611,6 +611,62 @@ def c14_packets(r, toks, per_shape):
     return lines
 
 
+
+def model_branch_lines(toks):
+    """inputs aimed at guards of the model that the generic generators rarely or never reach (measured from the guard-tag
+    histogram of the evidence): every line is one more point where the model and the implementation must agree"""
+    tok = toks[0][0]
+    sender_bl = b32(addr(201))
+    lines, _ = scen.base_setup()
+    ok_fee = [fee_action([(U[2], "b", 100)])]
+    big = 2 ** 256 - 1
+    lines += [
+        # attribute validation corners
+        orb_pkt("recv", 10 ** 6, cctp_fwd(domain=4)),                                                  # CCTP to Noble itself
+        orb_pkt("recv", 10 ** 6, hyp_fwd(tok, domain=1313817164)), orb_pkt("recv", 10 ** 6, hyp_fwd(tok, domain=1196573006)),
+        orb_pkt("recv", 10 ** 6, hyp_fwd(tok, domain=1, hook=b"\x05" * 5)), orb_pkt("recv", 10 ** 6, hyp_fwd(tok, domain=1, hook=b"\x05" * 33)),
+        orb_pkt("recv", 10 ** 6, hyp_fwd(tok, domain=1, meta="zz")), orb_pkt("recv", 10 ** 6, hyp_fwd(tok, domain=1, meta="0xzz")),
+        orb_pkt("recv", 10 ** 6, hyp_fwd(tok, domain=1, meta="0xabc")), orb_pkt("recv", 10 ** 6, hyp_fwd(tok, domain=1, meta="0xab")),
+        orb_pkt("recv", 10 ** 6, hyp_fwd(b"\x0e" * 32, domain=1)),                                       # unknown warp token
+        orb_pkt("recv", 10 ** 6, hyp_fwd(tok, domain=1, gas="1" + "0" * 80)),                            # math.Int beyond 256 bits
+        orb_pkt("recv", big, int_fwd(U[1]), [fee_action([(U[2], "b", 10000)])], denom="uother"),         # amount * bps overflows 2^256
+        # decoder corners
+        pkt_line("recv", ftpd("transfer/channel-7/uusdc", 1000, ORB, "{\"orbiter\":null}")),
+        pkt_line("recv", ftpd("transfer/channel-7/uusdc", 1000, ORB, _json.dumps({"orbiter": {"forwarding": int_fwd(U[1]), "pre_actions": [{"id": "ACTION_FEE", "attributes": cctp_fwd(domain=0)["attributes"]}]}}))),
+        pkt_line("recv", ftpd("transfer/channel-7/uusdc", 1000, ORB, _json.dumps({"orbiter": {"forwarding": {"protocol_id": "PROTOCOL_CCTP", "attributes": fee_action([(U[2], "b", 1)])["attributes"]}}}))),
+        pkt_line("recv", ftpd("transfer/channel-7/uusdc", 1000, ORB, _json.dumps({"orbiter": {"forwarding": {"protocol_id": "PROTOCOL_CCTP", "attributes": {"@type": scen.CCTP_URL, "destination_domain": 0, "mint_recipient": [1, 2, "x"]}}}}))),
+        pkt_line("recv", ftpd("transfer/channel-7/uusdc", 1000, ORB, _json.dumps({"orbiter": {"forwarding": {"protocol_id": "PROTOCOL_CCTP", "attributes": {"@type": scen.CCTP_URL, "destination_domain": 0, "mint_recipient": [1, 2, 300]}}}}))),
+        pkt_line("recv", ftpd("transfer/channel-7/uusdc", 1000, ORB, _json.dumps({"orbiter": {"forwarding": {"protocol_id": "PROTOCOL_CCTP", "attributes": {"@type": scen.CCTP_URL, "destination_domain": 0, "mint_recipient": [1, 2, 3]}}}}))),
+        # blockibc / fiat-tokenfactory corners (the minting denom)
+        "env blacklist %s 1" % hx(addr(200)), orb_pkt("recv", 10 ** 6, cctp_fwd(domain=0), ok_fee), "env blacklist %s 0" % hx(addr(200)),   # the packet's sender
+        "env blacklist %s 1" % hx(ORB_BYTES), orb_pkt("recv", 10 ** 6, cctp_fwd(domain=0), ok_fee), "env blacklist %s 0" % hx(ORB_BYTES),  # the receiver
+        "env blacklist %s 1" % hx(addr(2)), orb_pkt("recv", 10 ** 6, int_fwd(U[2])), "env blacklist %s 0" % hx(addr(2)),                   # internal recipient
+        "env ftfpause 1", orb_pkt("recv", 10 ** 6, cctp_fwd(domain=0), ok_fee), orb_pkt("recv", 10 ** 6, int_fwd(U[1]), ok_fee, denom="uother"), "env ftfpause 0",
+        pkt_line("recv", ftpd("transfer/channel-7/uusdc", 1000, ORB, memo(int_fwd(U[1])), sender="not-bech32")),
+        pkt_line("recv", ftpd("transfer/channel-7/uother", 1000, ORB, memo(int_fwd(U[1])), sender=" ")),
+        pkt_line("recv", ftpd("transfer/channel-7/uother", 1000, "noble1qqqqqqqqqqqqqqqqqqqqqqqqqqqqqqqqqqqqqqq", "")),
+        # the default Hyperlane hook: wrong domain, cap too low, nothing to charge
+        "env hyp igp %s 2 10000000000 1 50000" % hx("uusdc"), orb_pkt("recv", 10 ** 6, hyp_fwd(tok, domain=1, gas=100000, fee=("uusdc", 10 ** 6))),
+        "env hyp igp %s 1 10000000000 1 50000" % hx("uusdc"), orb_pkt("recv", 10 ** 6, hyp_fwd(tok, domain=1, gas=100000, fee=("uusdc", 5))),
+        orb_pkt("recv", 10 ** 6, hyp_fwd(tok, domain=1, gas=100000, fee=("uother", 10 ** 6))),
+        orb_pkt("recv", 10 ** 6, hyp_fwd(tok, domain=1, gas=100000)),
+        "env hyp igp %s 1 0 1 50000" % hx("uusdc"), orb_pkt("recv", 10 ** 6, hyp_fwd(tok, domain=1, gas=100000, fee=("uusdc", 10 ** 6))),
+        "env hyp noop",
+        # queries with identifiers that do not exist
+        "query IsProtocolPaused " + hx("PROTOCOL_NOPE"), "query IsActionPaused " + hx("ACTION_NOPE"), "query IsCrossChainPaused %s %s" % (hx("PROTOCOL_CCTP"), hx("x")),
+        "query IsCrossChainPaused %s %s" % (hx("PROTOCOL_NOPE"), hx("1")), "query PausedCrossChains %s nopage" % hx("PROTOCOL_NOPE"),
+        "query DispatchedCounts %s %s %s %s" % (hx("PROTOCOL_NOPE"), hx("channel-0"), hx("PROTOCOL_CCTP"), hx("0")),
+        "query DispatchedCounts %s %s %s %s" % (hx("PROTOCOL_IBC"), hx("x"), hx("PROTOCOL_CCTP"), hx("0")),
+        "query DispatchedCounts %s %s %s %s" % (hx("PROTOCOL_IBC"), hx("channel-0"), hx("PROTOCOL_NOPE"), hx("0")),
+        "query DispatchedCounts %s %s %s %s" % (hx("PROTOCOL_IBC"), hx("channel-0"), hx("PROTOCOL_CCTP"), hx("x")),
+        "query DispatchedAmounts %s %s %s %s %s" % (hx("PROTOCOL_IBC"), hx("channel-0"), hx("PROTOCOL_CCTP"), hx("0"), "-"),
+        "query DispatchedAmounts %s %s %s %s %s" % (hx("PROTOCOL_NOPE"), hx("channel-0"), hx("PROTOCOL_CCTP"), hx("0"), hx("uusdc")),
+        "query DispatchedCountsBySrc %s nopage" % hx("PROTOCOL_NOPE"), "query DispatchedAmountsByDst %s nopage" % hx("PROTOCOL_NOPE"),
+        "query Params",
+        orb_pkt("recv", 10 ** 6, int_fwd(U[1]), ok_fee),                                                 # control
+    ]
+    return lines
+
 @prop
 class C14(Base):
     id = "C14"
@@ -626,7 +682,8 @@ class C14(Base):
         s1 += ["pure ics20 " + hx(b) for b in scen.random_bytes_memos(r.fork(3), 100)]
         s3 = lines + c14_packets(r.fork(4), toks, per)
         return [Stream("S1-parser-mutations", s1, fields={"pure": ["_"]}, oracle=c14_oracle),
-                Stream("S3-malformed-packets", s3, fields={"recv": ["ack", "src"]}, oracle=c14_oracle)]
+                Stream("S3-malformed-packets", s3, fields={"recv": ["ack", "src"]}, oracle=c14_oracle),
+                Stream("S3-model-branches", model_branch_lines(toks), fields={"recv": ["ack", "src", "bal", "st"], "query": ["res", "out"]}, oracle=c14_oracle)]
 
 
 # ----------------------------------------------------------------------------------------------- C02
